@@ -312,7 +312,7 @@ func main() {
 	f := hx.ParseFlags()
 	o := hx.NewOut(f.Out)
 	defer o.Close()
-	n := f.N(300, 6000)
+	n := f.N(720, 6000)
 	ntuples := 12
 	corpus := corpusProgs()
 	var progs []*Prog
@@ -351,10 +351,21 @@ func main() {
 
 	t0 := time.Now()
 	// standard toolchain first, one batch: it tells which tuples are inside the property's side condition
-	gores, dropped, err := runBatch(filepath.Join(f.Out, "gobatch"), progs)
-	if err != nil {
-		fmt.Fprintln(os.Stderr, "go batch failed:", err)
-		os.Exit(3)
+	// (quick tier: one `go run`; larger runs are cut into chunks of 750 programs to bound the Go compiler's memory)
+	gores, dropped := map[string]goRes{}, map[int]string{}
+	for lo := 0; lo < len(progs); lo += 750 {
+		hi := min(lo+750, len(progs))
+		gr, dr, err := runBatch(filepath.Join(f.Out, fmt.Sprintf("gobatch%d", lo/750)), progs[lo:hi])
+		if err != nil {
+			fmt.Fprintln(os.Stderr, "go batch failed:", err)
+			os.Exit(3)
+		}
+		for k, v := range gr {
+			gores[k] = v
+		}
+		for k, v := range dr {
+			dropped[k] = v
+		}
 	}
 	fmt.Fprintf(os.Stderr, "go batch: %v\n", time.Since(t0))
 	t0 = time.Now()
